@@ -5,8 +5,12 @@ proofs : lean/PyAbel/Props/C10.lean (polynomial_abel / polynomial_abel_shifted: 
          Horner sum of a(k) — is the Abel integral of `Polynomial.func` for every degree, piece, shift, stretch and sample inside the
          outer radius, by the reduction formula of ∫ rᵏ dy (Lemmas/AbelPoly.lean, PolyAbel.lean);
          shift/stretch coefficient transform for every degree, r₀, s ≠ 0; Angular product =
-         polynomial product; cossin(m, n) coefficients)
-K      : Polynomial(...).func vs Horner evaluation of the Lean-transformed coefficients; Angular products / cossin vs model
+         polynomial product; cossin(m, n) coefficients);
+         lean/PyAbel/Props/C10SPoly.lean (every SPolynomial term r^m cos^n θ on [r_min, r_max): the coded antiderivatives F(k, lim)
+         for all integer k = n − m — closed forms, upward and downward recursion — give exactly the line-of-sight integral of the term;
+         Lemmas/AbelFracZ.lean: two-sided reduction formula for ∫(r/ρ)ᵏ, k ∈ ℤ)
+K      : SPolynomial with one unit coefficient vs the Lean term model at random points (driver op spterm);
+         Polynomial(...).func vs Horner evaluation of the Lean-transformed coefficients; Angular products / cossin vs model
 S      : func = polynomial on [r_min, r_max), 0 outside; abel = line-of-sight quadrature of that function (scipy quad),
          relative to the size of the terms, for random coefficient vectors / matrices of degree ≤ 8, limits incl. negative and
          beyond-grid, r₀, s of either sign, reduced on/off, uniform and random grids, 2-D (r, cos) arrays with any origin;
@@ -329,6 +333,33 @@ def oracle(ck, tier, deep):
             ck.violation(dict(site="ApproxGaussian", clause="scaled"), dict(tol=tol, deviation=float(dev2)), f"scaled ApproxGaussian deviates by {dev2:.4g}")
 
 
+def corr_spterm(ck, tier):
+    """SPolynomial with a single non-zero coefficient c[m, n] = 1 vs the Lean model `SPoly.term` (Props/C10SPoly.lean: that model is
+    the line-of-sight integral of r^m cos^n θ on [r_min, r_max)), at random points, r_min = 0 and > 0, inside and outside the shell"""
+    from abel.tools.polynomial import SPolynomial
+    from harness.common import drive, f2h, h2arr
+    rng = np.random.default_rng(seed() + 1010)
+    lines, refs = [], []
+    for _ in range(150 if tier == "quick" else 1500):
+        m, n = int(rng.integers(0, 8)), int(rng.integers(0, 8))
+        rmax = float(rng.uniform(2, 40))
+        rmin = 0.0 if rng.random() < 0.4 else float(rng.uniform(0, rmax * 0.95))
+        r = float(rng.uniform(0.02, rmax * 0.999))
+        cs = float(rng.uniform(-1, 1))
+        c = np.zeros((m + 1, n + 1))
+        c[m, n] = 1.0
+        sp = quiet(SPolynomial, np.array([r]), np.array([cs]), rmin, rmax, c)
+        lines.append(f"spterm {m} {n} {f2h(rmin)} {f2h(rmax)} {f2h(r)} {f2h(cs)}")
+        refs.append((float(sp.abel[0]), m, n, rmin, rmax, r, cs))
+    for out, (a, m, n, rmin, rmax, r, cs) in zip(drive(lines), refs):
+        ck.count(("K.spterm", m, n, rmin == 0, r < rmin), suite="K.spolynomial-term")
+        g = h2arr(out.split()[3:])[0] if out.startswith("ok") else np.nan
+        # terms of size r_max^(m+1) are subtracted: a few ulps of that
+        if not abs(g - a) <= 1e-13 * max(1.0, abs(a), rmax ** (m + 1)):
+            ck.disagree("K.spolynomial-term", dict(m=m, n=n, r_min=rmin, r_max=rmax, r=r, cos=cs, implementation=a, model=float(g)),
+                        f"SPolynomial(c[{m},{n}]=1).abel at r={r:.6g}, cos={cs:.4g} is {a!r}, the Lean term model gives {g!r}")
+
+
 def run(tier):
     ck = Check("C10", tier)
     deep = tier == "thorough"
@@ -342,13 +373,15 @@ def run(tier):
                               "Model/Polynomial.lean tied to Polynomial.func / Angular by K",
                               "the closed-form Abel integrals of r^k and r^m cos^n pieces (recursions in Polynomial.a, SPolynomial.F) are "
                               "measured against scipy.integrate.quad, not proved", "ApproxGaussian's node search: measured on a dense grid"]
-    ck.cov["unproved_clauses"] = ["abel = Abel(func) for Polynomial / SPolynomial (quadrature)", "ApproxGaussian(tol) ≤ 1.01 tol (dense grid)",
+    ck.cov["unproved_clauses"] = ["SPolynomial: shift / stretch and the Horner assembly of the proved terms (linear; quadrature)", "ApproxGaussian(tol) ≤ 1.01 tol (dense grid)",
                                   "B-spline conversion, Legendre series (numerical)"]
     ck.cov["source_fingerprint"] = source_fingerprint(["abel/tools/polynomial.py"])
     ck.proofs("PyAbel.Props.C10")
+    ck.proofs("PyAbel.Props.C10SPoly")
     ok, log = ensure_driver()
     if ok:
         correspondence(ck, tier)
+        corr_spterm(ck, tier)
     else:
         ck.broken.append(dict(kind="proof", module="pyabel_drv", why="driver build failed", log=log[-1500:]))
     oracle(ck, tier, deep or bool(ck.broken))
